@@ -175,16 +175,24 @@ func VP_C16_composite() {
 			want = append(want, vals...)
 		}
 	}
+	sfx := vpChoose("suffix", 3)
 	comp("a", 1+vpChoose("groupsA", vpParam("GROUPS_A", 2)))
+	if sfx == 2 { // a period inside the first component: everything after it is ignored, later components included
+		name = append(name, []byte(".x")...)
+	}
 	name = append(name, '_')
+	nA := len(want)
 	if vpParam("B_SYMBOLIC", 1) == 1 {
 		comp("b", 1)
 	} else {
 		name = append(name, []byte("uni0042")...)
 		want = append(want, 'B')
 	}
-	if vpChoose("suffix", 2) == 1 {
+	if sfx == 1 {
 		name = append(name, []byte(".alt")...)
+	}
+	if sfx == 2 {
+		want = want[:nA]
 	}
 	got := ToUnicode(string(name), false)
 	vpAssert("composite-is-concatenation-of-components", vpSameRunes(got, want))
